@@ -212,3 +212,52 @@ theorem ncgEagerStep_negcurv (cc : CgRe.Cfg K) (i : Nat) (s : NSt K V) (hip : Sy
   · exact ⟨hpos, by rw [hen, hpos]⟩
 
 end NiftyVerif.NewtonRe
+
+namespace NiftyVerif.CgRe
+set_option linter.unusedSectionVars false
+variable {K V : Type} [Field K] [LinearOrder K] [IsStrictOrderedRing K] [AddCommGroup V] [Module K V]
+
+/-- with `_raise_nonposdef = False` the eager CG never raises -/
+theorem eagerLoop_noraise (c : Cfg K) (ip : V → V → K) (mat : V → V) (j : V) (hr : c.raiseNPD = false) :
+    ∀ (fuel i : Nat) (s : St K V), ∃ r, eagerLoop c ip mat j fuel i s = .ok r := by
+  intro fuel
+  induction fuel with
+  | zero => intro i s; exact ⟨_, rfl⟩
+  | succ fuel ih =>
+    intro i s
+    rw [eagerLoop]
+    unfold eagerStep
+    simp only [hr, Bool.false_eq_true, if_false]
+    split_ifs <;> first | exact ⟨_, rfl⟩ | exact ih _ _
+
+theorem cgEager_noraise (c : Cfg K) (ip : V → V → K) (mat : V → V) (j : V) (x0 : Option V)
+    (hr : c.raiseNPD = false) : ∃ r, cgEager c ip mat j x0 = .ok r := by
+  unfold cgEager
+  simp only []
+  split_ifs
+  · exact ⟨_, rfl⟩
+  · exact eagerLoop_noraise c ip mat j hr _ _ _
+
+end NiftyVerif.CgRe
+
+namespace NiftyVerif.NewtonRe
+set_option linter.unusedSectionVars false
+variable {K V : Type} [Field K] [LinearOrder K] [IsStrictOrderedRing K] [AddCommGroup V] [Module K V]
+
+/-- the compiled CG oracle is the eager CG oracle (C15 `static_eq_eager`; `_newton_cg` passes `_raise_nonposdef=False`) -/
+theorem cgOracleStatic_eq (cc : CgRe.Cfg K) (ip : V → V → K) (hessp : V → V → V) (hr : cc.raiseNPD = false)
+    (hmax : 0 < CgRe.maxiterEff cc) : cgOracleStatic cc ip hessp = cgOracle cc ip hessp := by
+  funext pos g
+  obtain ⟨r, hrr⟩ := CgRe.cgEager_noraise cc ip (hessp pos) g none hr
+  have hs := CgRe.static_sim cc ip (hessp pos) g none (Or.inl hmax)
+  rw [hrr] at hs
+  simp only at hs
+  unfold cgOracleStatic cgOracle
+  rw [hrr]
+  simp only []
+  have h1 := congrArg CgRe.Obs.x hs
+  have h2 := congrArg CgRe.Obs.info hs
+  simp only [CgRe.SSt.obs, CgRe.Res.obs] at h1 h2
+  rw [h1, h2]
+
+end NiftyVerif.NewtonRe
